@@ -8,7 +8,7 @@ import z3
 from pyvc.prop import Unit
 from pyvc.values import strval, SV, STR, OSTR, INT, BOOL, TSeq, TOpt, term, is_sym, fresh, fresh_term, S_at
 from pyvc import models as M, fsys as FS, omap as O
-from pyvc.execu import HObj, PyRaise, LoopSpec
+from pyvc.execu import loop_targets, HObj, PyRaise, LoopSpec
 from props.C19 import make_fs, join_of, norm_of, fn, SEQ
 
 LEVEL = "proof"
@@ -265,11 +265,11 @@ class PackBanner(Unit):
                                f(L, i + 1) == z3.If(z3.And(OSTR.is_none(f(L, i)), has_ext(x, ext)), OSTR.some(x), f(L, i)))]
 
         def inv(ex_, fr, i, vals):
-            ext = fr.locals["image_type"]
+            ext = fr.locals[loop_targets(fr.fi, 0)[0]]
             return [("no-such-image-so-far", OSTR.is_none(IMGF(ext)(L, i)))]
 
         def using(ex_, fr, i, vals):
-            return unfold(fr.locals["image_type"], i)
+            return unfold(fr.locals[loop_targets(fr.fi, 0)[0]], i)
 
         ex.loop_specs[(self.LQ, 1)] = LoopSpec([], inv, using)
         kind, r = ex.run_function(ex.closure_of(self.LQ, owner=d.SimfilePack), [obj])
@@ -344,6 +344,21 @@ def witness_search(tier, seed):
         sf = SMSimfile.blank()
         if Assets(song, simfile=sf).banner is not None or Assets(song, simfile=sf).music is not None:
             return dict(input="directory without matching entries", detail="answer is not None")
+        # one entry whose name matches the patterns of two kinds answers for both (and all kinds may be asked of one Assets object)
+        for only, kinds2 in (("jacket-bn.png", ("banner", "jacket")), ("Jk_Song BG.PNG", ("background", "jacket")), ("cdtitle-cd.png", ("cdtitle", "cdimage"))):
+            open(os.path.join(song, only), "w").write("x")
+            sf = SMSimfile.blank()
+            for k in ("BANNER", "BACKGROUND", "CDTITLE", "JACKET", "CDIMAGE", "MUSIC"):
+                sf.pop(k, None)
+            a = Assets(song, simfile=sf)
+            for order in (kinds2, tuple(reversed(kinds2))):
+                a = Assets(song, simfile=sf)
+                for kd in order:
+                    got = getattr(a, kd)
+                    if got is None or os.path.basename(got) != only:
+                        os.remove(os.path.join(song, only))
+                        return dict(input=dict(directory=[only], asked=list(order)), detail=f"{kd} = {got!r}: the only entry matches the {kd} pattern")
+            os.remove(os.path.join(song, only))
         # the same on an in-memory filesystem, where joining a directory with "" gives the directory itself
         from fs.memoryfs import MemoryFS
         mem = MemoryFS()
